@@ -280,4 +280,13 @@ def reshape_inputs(c, inputs):
 
 
 if __name__ == '__main__':
-    sys.exit(main(sys.argv[1:]))
+    try:
+        rc = main(sys.argv[1:])
+    except SystemExit:
+        raise
+    except BaseException as e:       # a crash of the checker is never a verdict about the code: exit 3
+        import traceback
+        traceback.print_exc()
+        print('CHECKER-ERROR checker crashed: %s: %s' % (type(e).__name__, str(e)[:300]))
+        rc = 3
+    sys.exit(rc)
